@@ -1558,7 +1558,7 @@ theorem resultVar_bounds (s : State) (r : Res) (hwf : s.WF) (hb : BoundsSound tr
 
 /-- constraint kinds for which the per-kind soundness theorems above exist (conditional (in)equalities, `log`/`log_a`
 (argument narrowing), negative / fractional exponents are NOT covered) -/
-def Covered : Con → Prop
+def CoveredBase : Con → Prop
   | .pow _ p => p.den = 1 ∧ 0 ≤ p
   | .min as => as ≠ []
   | .max as => as ≠ []
@@ -1597,7 +1597,7 @@ theorem nat_of_rat {p : Rat} (h1 : p.den = 1) (h0 : 0 ≤ p) : ∃ k : Nat, p = 
   rw [hp]; exact_mod_cast h2.symm
 
 /-- **every covered kind**: the preprocessing decision is sound at every feasible valuation -/
-theorem prepro_sound (e : Env) (c : Con) (val : Val) (hcov : Covered c) (hadm : Adm e c) (htr : TrRange tr trp)
+theorem prepro_sound (e : Env) (c : Con) (val : Val) (hcov : CoveredBase c) (hadm : Adm e c) (htr : TrRange tr trp)
     (hf : Feasible e val) : DecisionSound tr trp (prepro e c) c val := by
   cases c with
   | lin c0 ts => obtain ⟨pre, hp, hc⟩ := C06_lin tr trp e val hf c0 ts; rw [hp]; exact ⟨hc, rfl⟩
@@ -1691,9 +1691,9 @@ theorem nested_eval (s : State) (pre : Pre) (con' : Con) (val : Val) (hd : DefsH
   next as => split <;> [rfl; exact nest_and tr trp s val hd as]
   next as => split <;> [rfl; exact nest_or tr trp s val hd as]
 
-theorem preproO_eq (o : Opts) (e : Env) (c : Con) (hcov : Covered c) : preproO o e c = prepro e c := by
+theorem preproO_eq (o : Opts) (e : Env) (c : Con) (hcov : CoveredBase c) : preproO o e c = prepro e c := by
   cases c <;> first | rfl | exact hcov.elim
-theorem argNarrowing_none (e : Env) (c : Con) (hcov : Covered c) : argNarrowing e c = none := by
+theorem argNarrowing_none (e : Env) (c : Con) (hcov : CoveredBase c) : argNarrowing e c = none := by
   cases c with
   | un f a => cases f <;> first | rfl | exact absurd rfl hcov
   | unp f a p => cases hcov; rfl
@@ -1704,18 +1704,528 @@ theorem assignBase_keep (s : State) (c : Con) (pre : Pre) (c' : Con) (h : prepro
   simp only [State.assignBase, h, State.nested]
   cases c' <;> rfl
 
-/-- **one conversion step keeps "no value is cut off"** (every covered kind) -/
+/-! ### Round 6: semantic preservation of the conditional-(in)equality normalisation; assign-level theorems over all covered kinds -/
+
+/-- value of the `std::map<int,double>` accumulator -/
+def mapVal (val : Val) (m : List (Nat × Rat)) : Rat := (m.map fun kc => kc.2 * val kc.1).sum
+
+theorem mapVal_accInsert (val : Val) (k : Nat) (c : Rat) (m : List (Nat × Rat)) :
+    mapVal val (accInsert k c m) = mapVal val m + c * val k := by
+  induction m with
+  | nil => simp [accInsert, mapVal]
+  | cons kc m ih =>
+    obtain ⟨k', c'⟩ := kc
+    simp only [accInsert]
+    split_ifs with h1 h2
+    · simp [mapVal]; ring
+    · subst h2; simp [mapVal]; ring
+    · simp only [mapVal, List.map_cons, List.sum_cons] at ih ⊢; rw [ih]; ring
+
+theorem mapVal_foldl (val : Val) (ts : LinT) (m : List (Nat × Rat)) :
+    mapVal val (ts.foldl (fun m t => if t.1 = 0 then m else accInsert t.2 t.1 m) m) = mapVal val m + linVal val ts := by
+  induction ts generalizing m with
+  | nil => simp [linVal]
+  | cons t ts ih =>
+    simp only [List.foldl_cons, linVal_cons]
+    rw [ih]
+    by_cases h : t.1 = 0
+    · simp [h]
+    · simp only [h, if_false, mapVal_accInsert]; ring
+
+theorem mapVal_filter (val : Val) (m : List (Nat × Rat)) :
+    linVal val ((m.filter (fun kc => kc.2 ≠ 0)).map (fun kc => (kc.2, kc.1))) = mapVal val m := by
+  induction m with
+  | nil => simp [linVal, mapVal]
+  | cons kc m ih =>
+    by_cases h : kc.2 = 0
+    · simp only [List.filter_cons, h, ne_eq, not_true_eq_false, decide_false, Bool.false_eq_true, if_false]
+      simp only [ne_eq] at ih
+      rw [ih]; simp [mapVal, h]
+    · simp only [List.filter_cons, ne_eq, h, not_false_eq_true, decide_true, if_true, List.map_cons, linVal_cons]
+      simp only [ne_eq] at ih
+      rw [ih]; simp [mapVal]
+
+/-- **`LinTerms::sort_terms` preserves the value** of the linear body -/
+theorem linVal_sortLin (val : Val) (ts : LinT) : linVal val (sortLin ts) = linVal val ts := by
+  unfold sortLin
+  simp only []
+  split_ifs
+  · rw [mapVal_filter, mapVal_foldl]; simp [mapVal]
+  · rfl
+
+theorem linVal_negLin (val : Val) (ts : LinT) : linVal val (negLin ts) = - linVal val ts := by
+  induction ts with
+  | nil => simp [negLin, linVal]
+  | cons t ts ih => simp only [negLin, List.map_cons, linVal_cons] at ih ⊢; rw [ih]; ring
+
+theorem accInsert_length (k : Nat) (c : Rat) (m : List (Nat × Rat)) : (accInsert k c m).length ≤ m.length + 1 := by
+  induction m with
+  | nil => simp [accInsert]
+  | cons kc m ih =>
+    obtain ⟨k', c'⟩ := kc
+    simp only [accInsert]
+    split_ifs <;> simp <;> omega
+
+theorem foldl_length (ts : LinT) (m : List (Nat × Rat)) :
+    (ts.foldl (fun m t => if t.1 = 0 then m else accInsert t.2 t.1 m) m).length ≤ m.length + (ts.filter (fun t => t.1 ≠ 0)).length := by
+  induction ts generalizing m with
+  | nil => simp
+  | cons t ts ih =>
+    simp only [List.foldl_cons]
+    refine le_trans (ih _) ?_
+    by_cases h : t.1 = 0
+    · simp [h, List.filter_cons]
+    · have := accInsert_length t.2 t.1 m
+      simp [h, List.filter_cons]; omega
+
+/-- after `sort_terms` no coefficient is zero -/
+theorem sortLin_nonzero (ts : LinT) : ∀ t ∈ sortLin ts, t.1 ≠ 0 := by
+  unfold sortLin
+  simp only []
+  split_ifs with h
+  · intro t ht
+    simp only [List.mem_map, List.mem_filter] at ht
+    obtain ⟨kc, ⟨_, hk⟩, rfl⟩ := ht
+    simpa using hk
+  · intro t ht h0
+    apply h
+    have h1 := foldl_length ts []
+    have h2 : (ts.filter (fun t => t.1 ≠ 0)).length < ts.length := by
+      apply List.length_filter_lt_length_iff_exists.mpr
+      exact ⟨t, ht, by simp [h0]⟩
+    simp only [List.length_nil, Nat.zero_add] at h1
+    omega
+
+theorem cmpKind_neg (kind : Int) (hk : kind = -2 ∨ kind = -1 ∨ kind = 0 ∨ kind = 1 ∨ kind = 2) (b r : Rat) :
+    cmpKind (-kind) (-b) (-r) = cmpKind kind b r := by
+  rcases hk with rfl | rfl | rfl | rfl | rfl <;> simp [cmpKind] <;> norm_num
+
+
+
+def KindOK (k : Int) : Prop := k = -2 ∨ k = -1 ∨ k = 0 ∨ k = 1 ∨ k = 2
+
+/-- soundness of a decision that does not redirect; nothing is claimed when the model says `unsupported` / `raise` (the driver then
+prints `unsupported` / `throw`, the state is unchanged) -/
+def BaseSoundW (d : Decision) (c : Con) (val : Val) : Prop :=
+  match d with
+  | .keep pre c' => pre.Contains (c.eval tr trp val) ∧ c'.eval tr trp val = c.eval tr trp val
+  | .alias v => val v = c.eval tr trp val
+  | _ => True
+
+/-- soundness of a decision, redirections included: the constraint converted instead has the same value and its own decision is sound -/
+def DecSound (o : Opts) (e : Env) (d : Decision) (c : Con) (val : Val) : Prop :=
+  match d with
+  | .keep pre c' => pre.Contains (c.eval tr trp val) ∧ c'.eval tr trp val = c.eval tr trp val
+  | .alias v => val v = c.eval tr trp val
+  | .redirect c2 => c2.eval tr trp val = c.eval tr trp val ∧ BaseSoundW tr trp (preproO o e c2) c2 val
+  | _ => True
+
+theorem const_contains (r : Rat) : (({} : Pre).narrow (fin r) (fin r)).Contains r :=
+  fresh_range_sound' (fin r) (fin r) r (Or.inr (by simp [lbOK])) (Or.inr (by simp [ubOK]))
+
+/-- conditional linear inequality, non-redirecting part: empty body → constant truth value; normalised body → `[0,1]` INTEGER and the
+stored constraint (terms sorted/merged by `sort_terms`, right-hand side rounded for an integer body) has the same truth value -/
+theorem ineq_base (e : Env) (val : Val) (hf : Feasible e val) (kind : Int) (hk : kind = -2 ∨ kind = -1 ∨ kind = 1 ∨ kind = 2)
+    (rhs : Rat) (ts : LinT) :
+    BaseSoundW tr trp (preproCondLinIneq e kind rhs ts) (.clin kind rhs ts) val := by
+  unfold preproCondLinIneq
+  by_cases hemp : ts.isEmpty = true
+  · simp only [hemp, if_true, BaseSoundW]
+    have : ts = [] := List.isEmpty_iff.mp hemp
+    subst this
+    simp only [Con.eval, linVal, List.map_nil, List.sum_nil]
+    exact ⟨const_contains _, trivial⟩
+  · simp only [hemp, Bool.false_eq_true, if_false]
+    cases hs : sortLin ts with
+    | nil => simp [BaseSoundW]
+    | cons t0 rest =>
+      simp only []
+      by_cases hpos : 0 < t0.1
+      · simp only [hpos, if_true, BaseSoundW, Con.eval]
+        refine ⟨preBool_contains_b2r _, ?_⟩
+        have hsv : linVal val (t0 :: rest) = linVal val ts := by rw [← hs]; exact linVal_sortLin val ts
+        rw [hsv]
+        congr 1
+        have hint : (boundsLin e (t0 :: rest)).int = true → IsInt (linVal val ts) := by
+          intro hi; rw [← hsv]; exact (boundsLin_sound e val hf (t0 :: rest)).2.2 hi
+        exact C06_round_rhs kind hk _ _ rhs hint
+      · simp [hpos, BaseSoundW]
+
+theorem ineq_dec (o : Opts) (e : Env) (val : Val) (hf : Feasible e val) (kind : Int)
+    (hk : kind = -2 ∨ kind = -1 ∨ kind = 1 ∨ kind = 2) (rhs : Rat) (ts : LinT) :
+    DecSound tr trp o e (preproCondLinIneq e kind rhs ts) (.clin kind rhs ts) val := by
+  have hb := ineq_base tr trp e val hf kind hk rhs ts
+  unfold preproCondLinIneq at hb ⊢
+  by_cases hemp : ts.isEmpty = true
+  · simp only [hemp, if_true] at hb ⊢; exact hb
+  · simp only [hemp, Bool.false_eq_true, if_false] at hb ⊢
+    cases hs : sortLin ts with
+    | nil => simp [DecSound]
+    | cons t0 rest =>
+      rw [hs] at hb
+      simp only [] at hb ⊢
+      by_cases hpos : 0 < t0.1
+      · simp only [hpos, if_true] at hb ⊢; exact hb
+      · simp only [hpos, if_false, DecSound]
+        have hk' : -kind = -2 ∨ -kind = -1 ∨ -kind = 1 ∨ -kind = 2 := by
+          rcases hk with rfl | rfl | rfl | rfl <;> simp
+        have hkne : ¬ (-kind = 0) := by rcases hk with rfl | rfl | rfl | rfl <;> simp
+        refine ⟨?_, ?_⟩
+        · simp only [Con.eval, linVal_negLin]
+          have hsv : linVal val (t0 :: rest) = linVal val ts := by rw [← hs]; exact linVal_sortLin val ts
+          rw [hsv]
+          congr 1
+          exact cmpKind_neg kind (by rcases hk with h | h | h | h <;> simp [h]) _ _
+        · have : preproO o e (.clin (-kind) (-rhs) (negLin (t0 :: rest))) =
+              preproCondLinIneq e (-kind) (-rhs) (negLin (t0 :: rest)) := by simp [preproO, hkne]
+          rw [this]
+          exact ineq_base tr trp e val hf (-kind) hk' (-rhs) _
+
+
+theorem eq_unify (c x r : Rat) (hc : c ≠ 0) : cmpKind 0 (c * x) r = cmpKind 0 x (if c = 1 then r else r / c) := by
+  simp only [cmpKind]
+  by_cases h1 : c = 1
+  · simp [h1]
+  · simp only [h1, if_false]
+    have : (c * x = r) ↔ (x = r / c) := by
+      constructor
+      · intro h; rw [← h]; field_simp
+      · intro h; rw [h]; field_simp
+    simp [this]
+
+/-- conditional linear equality (`PreprocessConstraint(CondLinConEQ&)`, any setting of the options `cvt:pre:eqresult`, `cvt:pre:eqbinary`):
+normalisation (sort_terms, sign flip), `FixEqualityResult`, `coef·x == rhs` → `x == rhs/coef`, reuse of a binary variable / its complement /
+constant false — each keeps the truth value -/
+theorem eq_dec (o : Opts) (e : Env) (val : Val) (hf : Feasible e val) (rhs : Rat) (ts : LinT) :
+    DecSound tr trp o e (preproCondLinEQO o e rhs ts) (.clin 0 rhs ts) val := by
+  unfold preproCondLinEQO
+  by_cases hemp : ts.isEmpty = true
+  · simp only [hemp, if_true, DecSound]
+    have : ts = [] := List.isEmpty_iff.mp hemp
+    subst this
+    simp only [Con.eval, linVal, List.map_nil, List.sum_nil]
+    exact ⟨const_contains _, trivial⟩
+  · simp only [hemp, Bool.false_eq_true, if_false]
+    cases hs : sortLin ts with
+    | nil => simp [DecSound]
+    | cons t0 rest =>
+      simp only []
+      have hsv : linVal val (t0 :: rest) = linVal val ts := by rw [← hs]; exact linVal_sortLin val ts
+      have hnz : ∀ t ∈ (t0 :: rest), t.1 ≠ 0 := by rw [← hs]; exact sortLin_nonzero ts
+      -- the normalised pair (ts2, rhs2) has the same truth value
+      generalize hn : (if 0 < t0.1 then (t0 :: rest, rhs) else (negLin (t0 :: rest), -rhs)) = nrm
+      obtain ⟨ts2, rhs2⟩ := nrm
+      have hval : cmpKind 0 (linVal val ts2) rhs2 = cmpKind 0 (linVal val ts) rhs := by
+        by_cases hpos : 0 < t0.1
+        · simp only [hpos, if_true, Prod.mk.injEq] at hn; obtain ⟨rfl, rfl⟩ := hn; rw [hsv]
+        · simp only [hpos, if_false, Prod.mk.injEq] at hn; obtain ⟨rfl, rfl⟩ := hn
+          rw [linVal_negLin, hsv]; exact cmpKind_neg 0 (by simp) _ _
+      have hnz2 : ∀ t ∈ ts2, t.1 ≠ 0 := by
+        by_cases hpos : 0 < t0.1
+        · simp only [hpos, if_true, Prod.mk.injEq] at hn; obtain ⟨rfl, rfl⟩ := hn; exact hnz
+        · simp only [hpos, if_false, Prod.mk.injEq] at hn; obtain ⟨rfl, rfl⟩ := hn
+          intro t ht; simp only [negLin, List.mem_map] at ht; obtain ⟨t', ht', rfl⟩ := ht
+          simpa using hnz t' ht'
+      simp only []
+      cases hfix : (if o.eqResult = true then fixEqualityResult (boundsLin e ts2) rhs2 preBool else none) with
+      | some p =>
+        simp only [DecSound, Con.eval]
+        have hfx : fixEqualityResult (boundsLin e ts2) rhs2 preBool = some p := by
+          by_cases ho : o.eqResult = true
+          · simpa [ho] using hfix
+          · simp [ho] at hfix
+        have := (C06_fix_equality (boundsLin e ts2) (linVal val ts2) rhs2 (boundsLin_sound e val hf ts2) p hfx).1
+        rw [hval] at this
+        exact ⟨this, by rw [hval]⟩
+      | none =>
+        simp only []
+        -- single term: coef·v == rhs2
+        match ts2, hval, hnz2 with
+        | [(c, v)], hval, hnz2 =>
+          have hc : c ≠ 0 := hnz2 (c, v) (by simp)
+          have hlv : linVal val [(c, v)] = c * val v := by simp [linVal]
+          have hu : cmpKind 0 (val v) (if c = 1 then rhs2 else rhs2 / c) = cmpKind 0 (linVal val ts) rhs := by
+            rw [← hval, hlv]; exact (eq_unify c (val v) rhs2 hc).symm
+          have hone : linVal val [((1 : Rat), v)] = val v := by simp [linVal]
+          simp only []
+          by_cases hbin : (o.eqBinVar && isBinaryVar e v) = true
+          · simp only [hbin, if_true]
+            rw [Bool.and_eq_true] at hbin
+            have h01 := binary_val e val hf v hbin.2
+            by_cases h1 : (if c = 1 then rhs2 else rhs2 / c) = 1
+            · simp only [h1, if_true, DecSound, Con.eval]
+              rw [← hu, h1]
+              rcases h01 with h | h <;> simp [h, cmpKind, b2r]
+            · simp only [h1, if_false]
+              by_cases h0 : (if c = 1 then rhs2 else rhs2 / c) = 0
+              · simp only [h0, if_true]
+                by_cases hb01 : (ER.eq (e v).lb (fin 0) && ER.eq (e v).ub (fin 1)) = true
+                · simp only [hb01, if_true, DecSound]
+                  refine ⟨?_, ?_⟩
+                  · have hl1 : linVal val [((-1 : Rat), v)] = -val v := by simp [linVal]
+                    simp only [Con.eval, hl1]
+                    rw [← hu, h0]
+                    rcases h01 with h | h <;> simp [h, cmpKind, b2r]
+                  · have : preproO o e (.lin 1 [(-1, v)]) = prepro e (.lin 1 [(-1, v)]) := rfl
+                    rw [this]
+                    obtain ⟨pre, hp, hcn⟩ := C06_lin tr trp e val hf 1 [(-1, v)]
+                    rw [hp]; exact ⟨hcn, rfl⟩
+                · simp [hb01, DecSound]
+              · simp only [h0, if_false, DecSound, Con.eval, hone]
+                have hfalse : cmpKind 0 (val v) (if c = 1 then rhs2 else rhs2 / c) = false := by
+                  simp only [cmpKind]
+                  rcases h01 with h | h
+                  · rw [h]; simp; exact fun hh => h0 hh.symm
+                  · rw [h]; simp; exact fun hh => h1 hh.symm
+                rw [← hu, hfalse]
+                exact ⟨pre00.1, rfl⟩
+          · simp only [hbin, Bool.false_eq_true, if_false, DecSound, Con.eval, hone]
+            rw [← hu]
+            exact ⟨preBool_contains_b2r _, rfl⟩
+        | [], hval, _ =>
+          simp only [DecSound, Con.eval]; rw [hval]; exact ⟨preBool_contains_b2r _, rfl⟩
+        | _ :: _ :: _, hval, _ =>
+          simp only [DecSound, Con.eval]; rw [hval]; exact ⟨preBool_contains_b2r _, rfl⟩
+
+
+def mapVal2 (val : Val) (m : List ((Nat × Nat) × Rat)) : Rat := (m.map fun kc => kc.2 * (val kc.1.1 * val kc.1.2)).sum
+
+theorem mapVal2_accInsert (val : Val) (k : Nat × Nat) (c : Rat) (m : List ((Nat × Nat) × Rat)) :
+    mapVal2 val (accInsert2 k c m) = mapVal2 val m + c * (val k.1 * val k.2) := by
+  induction m with
+  | nil => simp [accInsert2, mapVal2]
+  | cons kc m ih =>
+    obtain ⟨k', c'⟩ := kc
+    simp only [accInsert2]
+    split_ifs with h1 h2
+    · simp [mapVal2]; ring
+    · subst h2; simp [mapVal2]; ring
+    · simp only [mapVal2, List.map_cons, List.sum_cons] at ih ⊢; rw [ih]; ring
+
+theorem mapVal2_foldl (val : Val) (qs : QuadT) (m : List ((Nat × Nat) × Rat)) :
+    mapVal2 val (qs.foldl (fun m t => if t.1 = 0 then m else
+      accInsert2 (if t.2.1 < t.2.2 then (t.2.1, t.2.2) else (t.2.2, t.2.1)) t.1 m) m) = mapVal2 val m + quadVal val qs := by
+  induction qs generalizing m with
+  | nil => simp [quadVal]
+  | cons t qs ih =>
+    simp only [List.foldl_cons, quadVal_cons]
+    rw [ih]
+    by_cases h : t.1 = 0
+    · simp [h]
+    · simp only [h, if_false, mapVal2_accInsert]
+      by_cases hlt : t.2.1 < t.2.2
+      · simp only [hlt, if_true]; ring
+      · simp only [hlt, if_false]; ring
+
+theorem mapVal2_filter (val : Val) (m : List ((Nat × Nat) × Rat)) :
+    quadVal val ((m.filter (fun kc => kc.2 ≠ 0)).map (fun kc => (kc.2, kc.1.1, kc.1.2))) = mapVal2 val m := by
+  induction m with
+  | nil => simp [quadVal, mapVal2]
+  | cons kc m ih =>
+    by_cases h : kc.2 = 0
+    · simp only [List.filter_cons, h, ne_eq, not_true_eq_false, decide_false, Bool.false_eq_true, if_false]
+      simp only [ne_eq] at ih
+      rw [ih]; simp [mapVal2, h]
+    · simp only [List.filter_cons, ne_eq, h, not_false_eq_true, decide_true, if_true, List.map_cons, quadVal_cons]
+      simp only [ne_eq] at ih
+      rw [ih]; simp [mapVal2]
+
+/-- **`QuadTerms::sort_terms` preserves the value** (pairs ordered, equal pairs merged, zero terms dropped) -/
+theorem quadVal_sortQuad (val : Val) (qs : QuadT) : quadVal val (sortQuad qs) = quadVal val qs := by
+  unfold sortQuad
+  simp only []
+  rw [mapVal2_filter, mapVal2_foldl]; simp [mapVal2]
+
+theorem quadVal_negQuad (val : Val) (qs : QuadT) : quadVal val (negQuad qs) = - quadVal val qs := by
+  induction qs with
+  | nil => simp [negQuad, quadVal]
+  | cons t qs ih => simp only [negQuad, List.map_cons, quadVal_cons] at ih ⊢; rw [ih]; ring
+
+theorem boundsQL_sound (e : Env) (val : Val) (hf : Feasible e val) (ts : LinT) (qs : QuadT) :
+    (boundsQL e ts qs).ContainsW (linVal val ts + quadVal val qs) :=
+  addBounds_sound _ _ _ _ (boundsLin_sound e val hf ts) (boundsQuadT_sound e val hf (productBounds_sound_all e val hf) qs)
+
+/-- conditional quadratic equality -/
+theorem qeq_dec (o : Opts) (e : Env) (val : Val) (hf : Feasible e val) (rhs : Rat) (ts : LinT) (qs : QuadT) :
+    DecSound tr trp o e (preproCondQuadEQO o e rhs ts qs) (.cquad 0 rhs ts qs) val := by
+  unfold preproCondQuadEQO
+  by_cases hemp : (ts.isEmpty && qs.isEmpty) = true
+  · simp only [hemp, if_true, DecSound]
+    rw [Bool.and_eq_true] at hemp
+    have h1 : ts = [] := List.isEmpty_iff.mp hemp.1
+    have h2 : qs = [] := List.isEmpty_iff.mp hemp.2
+    subst h1; subst h2
+    simp only [Con.eval, linVal, quadVal, List.map_nil, List.sum_nil, add_zero]
+    exact ⟨const_contains _, trivial⟩
+  · simp only [hemp, Bool.false_eq_true, if_false]
+    cases hfix : (if o.eqResult = true then fixEqualityResult (boundsQL e ts qs) rhs preBool else none) with
+    | some p =>
+      have hfx : fixEqualityResult (boundsQL e ts qs) rhs preBool = some p := by
+        by_cases ho : o.eqResult = true
+        · simpa [ho] using hfix
+        · simp [ho] at hfix
+      simp only [DecSound, Con.eval]
+      exact ⟨(C06_fix_equality (boundsQL e ts qs) _ rhs (boundsQL_sound e val hf ts qs) p hfx).1, trivial⟩
+    | none => simp only [DecSound, Con.eval]; exact ⟨preBool_contains_b2r _, trivial⟩
+
+/-- conditional quadratic inequality, non-redirecting part -/
+theorem qineq_base (e : Env) (val : Val) (hf : Feasible e val) (kind : Int) (hk : kind = -2 ∨ kind = -1 ∨ kind = 1 ∨ kind = 2)
+    (rhs : Rat) (ts : LinT) (qs : QuadT) :
+    BaseSoundW tr trp (preproCondQuadIneq e kind rhs ts qs) (.cquad kind rhs ts qs) val := by
+  unfold preproCondQuadIneq
+  by_cases hemp : (ts.isEmpty && qs.isEmpty) = true
+  · simp only [hemp, if_true, BaseSoundW]
+    rw [Bool.and_eq_true] at hemp
+    have h1 : ts = [] := List.isEmpty_iff.mp hemp.1
+    have h2 : qs = [] := List.isEmpty_iff.mp hemp.2
+    subst h1; subst h2
+    simp only [Con.eval, linVal, quadVal, List.map_nil, List.sum_nil, add_zero]
+    exact ⟨const_contains _, trivial⟩
+  · simp only [hemp, Bool.false_eq_true, if_false]
+    have hsv : linVal val (sortLin ts) + quadVal val (sortQuad qs) = linVal val ts + quadVal val qs := by
+      rw [linVal_sortLin, quadVal_sortQuad]
+    have hkeep : BaseSoundW tr trp (.keep preBool (.cquad kind (roundRhs kind (boundsQL e (sortLin ts) (sortQuad qs)).int rhs)
+        (sortLin ts) (sortQuad qs))) (.cquad kind rhs ts qs) val := by
+      simp only [BaseSoundW, Con.eval]
+      refine ⟨preBool_contains_b2r _, ?_⟩
+      rw [hsv]; congr 1
+      exact C06_round_rhs kind hk _ _ rhs (fun hi => by
+        rw [← hsv]; exact (boundsQL_sound e val hf (sortLin ts) (sortQuad qs)).2.2 hi)
+    cases hs : sortLin ts with
+    | nil =>
+      cases hq : sortQuad qs with
+      | nil => simp [BaseSoundW]
+      | cons q0 qrest =>
+        simp only []
+        by_cases hpos : 0 < q0.1
+        · simp only [hpos, decide_true]; rw [hs, hq] at hkeep; exact hkeep
+        · simp [hpos, BaseSoundW]
+    | cons t0 rest =>
+      simp only []
+      by_cases hpos : 0 < t0.1
+      · simp only [hpos, decide_true]; rw [hs] at hkeep; exact hkeep
+      · simp [hpos, BaseSoundW]
+
+theorem qineq_dec (o : Opts) (e : Env) (val : Val) (hf : Feasible e val) (kind : Int)
+    (hk : kind = -2 ∨ kind = -1 ∨ kind = 1 ∨ kind = 2) (rhs : Rat) (ts : LinT) (qs : QuadT) :
+    DecSound tr trp o e (preproCondQuadIneq e kind rhs ts qs) (.cquad kind rhs ts qs) val := by
+  have hb := qineq_base tr trp e val hf kind hk rhs ts qs
+  -- keep/alias/unsupported are the same predicate; only a redirect needs more
+  cases hd : preproCondQuadIneq e kind rhs ts qs with
+  | keep pre c' => rw [hd] at hb; exact hb
+  | «alias» v => rw [hd] at hb; exact hb
+  | raise w => simp [DecSound]
+  | unsupported => simp [DecSound]
+  | redirect c2 =>
+    -- the only redirect: the negated constraint
+    have hc2 : c2 = .cquad (-kind) (-rhs) (negLin (sortLin ts)) (negQuad (sortQuad qs)) := by
+      unfold preproCondQuadIneq at hd
+      split_ifs at hd
+      simp only [] at hd
+      split at hd <;> first | (cases hd; done) | (cases hd; rfl) | (injection hd with hd; exact hd.symm)
+    subst hc2
+    have hk' : -kind = -2 ∨ -kind = -1 ∨ -kind = 1 ∨ -kind = 2 := by rcases hk with rfl | rfl | rfl | rfl <;> simp
+    have hkne : ¬ (-kind = 0) := by rcases hk with rfl | rfl | rfl | rfl <;> simp
+    simp only [DecSound]
+    refine ⟨?_, ?_⟩
+    · simp only [Con.eval, linVal_negLin, quadVal_negQuad, linVal_sortLin, quadVal_sortQuad]
+      have : -linVal val ts + -quadVal val qs = -(linVal val ts + quadVal val qs) := by ring
+      rw [this]; congr 1
+      exact cmpKind_neg kind (by rcases hk with h | h | h | h <;> simp [h]) _ _
+    · have : preproO o e (.cquad (-kind) (-rhs) (negLin (sortLin ts)) (negQuad (sortQuad qs))) =
+          preproCondQuadIneq e (-kind) (-rhs) (negLin (sortLin ts)) (negQuad (sortQuad qs)) := by simp [preproO, hkne]
+      rw [this]
+      exact qineq_base tr trp e val hf (-kind) hk' (-rhs) _ _
+
+
+/-- constraint kinds covered by the assign-level and history theorems: everything the model handles except `log` / `log_a` (argument
+narrowing) and negative / fractional exponents -/
+def Covered : Con → Prop
+  | .pow _ p => p.den = 1 ∧ 0 ≤ p
+  | .min as => as ≠ []
+  | .max as => as ≠ []
+  | .nvar as => as ≠ []
+  | .un f _ => f ≠ .log
+  | .unp f _ _ => f = .expa
+  | .clin k _ _ => KindOK k
+  | .cquad k _ _ _ => KindOK k
+  | _ => True
+
+theorem covered_of' {c : Con} (h : Covered c) (hc : ∀ k r ts, c ≠ .clin k r ts) (hq : ∀ k r ts qs, c ≠ .cquad k r ts qs) : CoveredBase c := by
+  cases c <;> first | exact h | exact (hc _ _ _ rfl).elim | exact (hq _ _ _ _ rfl).elim
+
+theorem decSound_of_old (o : Opts) (e : Env) (d : Decision) (c : Con) (val : Val) (hf : Feasible e val)
+    (h : DecisionSound tr trp d c val) : DecSound tr trp o e d c val := by
+  cases d with
+  | keep pre c' => exact h
+  | «alias» v => exact h
+  | redirect c2 =>
+    obtain ⟨heq, c0, ts, rfl⟩ := h
+    refine ⟨heq, ?_⟩
+    have : preproO o e (.lin c0 ts) = prepro e (.lin c0 ts) := rfl
+    rw [this]
+    obtain ⟨pre, hpp, hc⟩ := C06_lin tr trp e val hf c0 ts
+    rw [hpp]; exact ⟨hc, rfl⟩
+  | raise w => trivial
+  | unsupported => trivial
+
+/-- **every covered kind, any option setting**: the decision `PreprocessConstraint` takes is sound at every feasible valuation -/
+theorem decision_sound (o : Opts) (e : Env) (c : Con) (val : Val) (hcov : Covered c) (hadm : Adm e c) (htr : TrRange tr trp)
+    (hf : Feasible e val) : DecSound tr trp o e (preproO o e c) c val := by
+  by_cases hcl : (∃ k r ts, c = .clin k r ts) ∨ (∃ k r ts qs, c = .cquad k r ts qs)
+  · rcases hcl with ⟨k, rhs, ts, rfl⟩ | ⟨k, rhs, ts, qs, rfl⟩
+    · by_cases h0 : k = 0
+      · subst h0; simp only [preproO, if_true]; exact eq_dec tr trp o e val hf rhs ts
+      · simp only [preproO, h0, if_false]
+        exact ineq_dec tr trp o e val hf k (by rcases hcov with h | h | h | h | h <;> simp_all) rhs ts
+    · by_cases h0 : k = 0
+      · subst h0; simp only [preproO, if_true]; exact qeq_dec tr trp o e val hf rhs ts qs
+      · simp only [preproO, h0, if_false]
+        exact qineq_dec tr trp o e val hf k (by rcases hcov with h | h | h | h | h <;> simp_all) rhs ts qs
+  · have hold_cov : CoveredBase c := covered_of' hcov (fun k r ts h => hcl (Or.inl ⟨k, r, ts, h⟩)) (fun k r ts qs h => hcl (Or.inr ⟨k, r, ts, qs, h⟩))
+    rw [preproO_eq o e c hold_cov]
+    exact decSound_of_old tr trp o e _ c val hf (prepro_sound tr trp e c val hold_cov hadm htr hf)
+
+
+theorem argNarrowing_none' (e : Env) (c : Con) (hcov : Covered c) : argNarrowing e c = none := by
+  cases c with
+  | un f a => cases f <;> first | rfl | exact absurd rfl hcov
+  | unp f a p => cases hcov; rfl
+  | _ => rfl
+
+/-- `AssignResultVar2Args` of a `finish`: the variable finally returned has the value of the stored constraint -/
+theorem redirect_outcome (s : State) (P : Pre) (K : Con) (val : Val) (x : Rat) (hwf : s.WF) (hfix : FixedOK s)
+    (hcont : P.Contains x) (hcon : K.eval tr trp val = x) (v : Nat)
+    (hf : Feasible (State.resultVar (s.finish P K)).1.env val) (hd : DefsHold tr trp (State.resultVar (s.finish P K)).1 val)
+    (hr : (State.resultVar (s.finish P K)).2 = some v) : val v = x := by
+  obtain ⟨h1, h2⟩ := C06_finish_sound tr trp s P K val x hwf hcont hcon
+  have hvar : ∀ v, (s.finish P K).2 = .var v → val v = x := by
+    intro v h
+    apply h2 v h
+    have : (State.resultVar (s.finish P K)).1 = (s.finish P K).1 := by simp [State.resultVar, h]
+    rw [← this]; exact hd
+  have hst : ∀ c, (s.finish P K).2 = .const c → FixedOK (s.finish P K).1 := by
+    intro c h
+    have : (s.finish P K).1 = s := by
+      rw [finish_eq] at h ⊢
+      by_cases hc : P.isConstant = true
+      · simp [hc]
+      · simp only [hc] at h ⊢
+        cases hm : s.mapFind K <;> simp [hm] at h
+    rw [this]; exact hfix
+  exact C06_resultVar_sound (s.finish P K).1 (s.finish P K).2 val x hst h1 hvar v hf hr
+
+/-- **one conversion step keeps "no value is cut off"** — every covered kind, conditional comparisons included, any option setting -/
 theorem assign_bounds (s : State) (c : Con) (hwf : s.WF) (hb : BoundsSound tr trp s) (hcov : Covered c) (hadm : Adm s.env c)
     (htr : TrRange tr trp) :
     BoundsSound tr trp (s.assign c).1 ∧ (s.assign c).1.WF ∧ (s.assign c).1.opts = s.opts := by
-  have hdec := fun val hf => prepro_sound tr trp s.env c val hcov hadm htr hf
-  have hpo := preproO_eq s.opts s.env c hcov
-  have han := argNarrowing_none s.env c hcov
-  cases hd : prepro s.env c with
+  have hdec := fun val hf => decision_sound tr trp s.opts s.env c val hcov hadm htr hf
+  have han := argNarrowing_none' s.env c hcov
+  cases hd : preproO s.opts s.env c with
   | keep pre c' =>
     have hassign : s.assign c = s.finish pre (s.nested pre c') := by
-      rw [← assignBase_keep s c pre c' (by rw [hpo, hd])]
-      simp only [State.assign, han, hpo, hd]
+      rw [← assignBase_keep s c pre c' hd]
+      simp only [State.assign, han, hd]
     rw [hassign]
     refine finish_bounds tr trp s pre _ hwf hb ?_
     intro val hf hds
@@ -1724,51 +2234,44 @@ theorem assign_bounds (s : State) (c : Con) (hwf : s.WF) (hb : BoundsSound tr tr
     rw [nested_eval tr trp s pre c' val hds, this.2]
     exact this.1
   | «alias» v =>
-    have : s.assign c = (s, .var v) := by simp only [State.assign, han, hpo, hd, State.assignBase]
+    have : s.assign c = (s, .var v) := by simp only [State.assign, han, hd, State.assignBase]
     rw [this]; exact ⟨hb, hwf, rfl⟩
   | redirect c2 =>
     have hassign : (s.assign c).1 = (State.resultVar (s.assignBase c2)).1 := by
-      simp only [State.assign, han, hpo, hd]
+      simp only [State.assign, han, hd]
       cases (State.resultVar (s.assignBase c2)).2 <;> rfl
     rw [hassign]
-    -- c2 is linear (decision soundness at any feasible valuation tells so; structurally it is `−x`)
-    have hlin : ∃ c0 ts, c2 = .lin c0 ts := by
-      cases c with
-      | abs a =>
-        have : prepro s.env (.abs a) = preproAbs s.env a := rfl
-        rw [this] at hd
-        simp only [preproAbs] at hd
-        split_ifs at hd
-        all_goals first | (injection hd with hd; exact ⟨_, _, hd.symm⟩) | cases hd
-      | pow a p =>
-        have : prepro s.env (.pow a p) = preproPow s.env a p := rfl
-        rw [this] at hd; simp only [preproPow] at hd
-        split_ifs at hd <;> first | cases hd | (split at hd <;> first | cases hd | (split_ifs at hd <;> cases hd))
-      | clin k r ts => exact hcov.elim
-      | cquad k r ts qs => exact hcov.elim
-      | unp f a p => cases f <;> cases hd
-      | _ => cases hd
-    obtain ⟨c0, ts, rfl⟩ := hlin
-    let P : Pre := ((({} : Pre).narrow (withConst (boundsLin s.env ts) c0).lb (withConst (boundsLin s.env ts) c0).ub).setType
-      (withConst (boundsLin s.env ts) c0).int)
-    have hp0 : prepro s.env (.lin c0 ts) = .keep P (.lin c0 ts) := rfl
-    have hb2 : s.assignBase (.lin c0 ts) = s.finish P (.lin c0 ts) :=
-      assignBase_keep s (.lin c0 ts) P (.lin c0 ts) (by rw [preproO_eq s.opts s.env (.lin c0 ts) trivial, hp0])
-    have h1 := finish_bounds tr trp s P (.lin c0 ts) hwf hb (fun val hf _ => by
-      obtain ⟨pre, hp, hc⟩ := C06_lin tr trp s.env val hf c0 ts
-      rw [hp0] at hp; injection hp with hp1 _; rw [hp1]; exact hc)
-    rw [hb2]
-    have h2 := resultVar_bounds tr trp (s.finish P (.lin c0 ts)).1 (s.finish P (.lin c0 ts)).2 h1.2.1 h1.1
-    exact ⟨h2.1, h2.2.1, by rw [h2.2.2, h1.2.2]⟩
+    cases hd2 : preproO s.opts s.env c2 with
+    | keep pre2 c2' =>
+      rw [assignBase_keep s c2 pre2 c2' hd2]
+      have h1 := finish_bounds tr trp s pre2 (s.nested pre2 c2') hwf hb (fun val hf hds => by
+        have := hdec val hf
+        rw [hd] at this
+        have hb2 := this.2
+        rw [hd2] at hb2
+        rw [nested_eval tr trp s pre2 c2' val hds, hb2.2]; exact hb2.1)
+      have h2 := resultVar_bounds tr trp (s.finish pre2 (s.nested pre2 c2')).1 (s.finish pre2 (s.nested pre2 c2')).2 h1.2.1 h1.1
+      exact ⟨h2.1, h2.2.1, by rw [h2.2.2, h1.2.2]⟩
+    | «alias» v2 =>
+      have : s.assignBase c2 = (s, .var v2) := by simp only [State.assignBase, hd2]
+      rw [this]; exact ⟨hb, hwf, rfl⟩
+    | redirect c3 =>
+      have : s.assignBase c2 = (s, .unsupported) := by simp only [State.assignBase, hd2]
+      rw [this]; exact ⟨hb, hwf, rfl⟩
+    | raise w =>
+      have : s.assignBase c2 = (s, .unsupported) := by simp only [State.assignBase, hd2]
+      rw [this]; exact ⟨hb, hwf, rfl⟩
+    | unsupported =>
+      have : s.assignBase c2 = (s, .unsupported) := by simp only [State.assignBase, hd2]
+      rw [this]; exact ⟨hb, hwf, rfl⟩
   | raise w =>
-    have : s.assign c = (s, .throw w) := by simp only [State.assign, han, hpo, hd]
+    have : s.assign c = (s, .throw w) := by simp only [State.assign, han, hd]
     rw [this]; exact ⟨hb, hwf, rfl⟩
   | unsupported =>
-    have : s.assign c = (s, .unsupported) := by simp only [State.assign, han, hpo, hd]
+    have : s.assign c = (s, .unsupported) := by simp only [State.assign, han, hd]
     rw [this]; exact ⟨hb, hwf, rfl⟩
 
-
-/-- **assign-level soundness, every covered kind** (`FlatConverter::AssignResult2Args` as the driver runs it): composition of the
+/-- **assign-level soundness, every covered kind** (round 6: conditional linear and quadratic (in)equalities included, any option setting) (`FlatConverter::AssignResult2Args` as the driver runs it): composition of the
 per-kind preprocessing theorems with `C06_finish_sound` / `C06_resultVar_sound`.
 (1) the converter state keeps the invariant "no value is cut off" (`BoundsSound`: every defined variable lies in its recorded
 bounds and type whenever the undefined ones lie in theirs and all definitions hold), stays well-formed, options unchanged;
@@ -1782,41 +2285,88 @@ theorem C06_assign_sound (s : State) (c : Con) (hwf : s.WF) (hfix : FixedOK s) (
       (∀ v, (s.assign c).2 = .var v → val v = Con.eval tr trp val c) := by
   refine ⟨assign_bounds tr trp s c hwf hb hcov hadm htr, ?_⟩
   intro val hf0 hd0 hf hd
-  have hdec := prepro_sound tr trp s.env c val hcov hadm htr hf0
-  have hpo := preproO_eq s.opts s.env c hcov
-  have han := argNarrowing_none s.env c hcov
-  cases hdc : prepro s.env c with
+  have hdec := decision_sound tr trp s.opts s.env c val hcov hadm htr hf0
+  have han := argNarrowing_none' s.env c hcov
+  cases hdc : preproO s.opts s.env c with
   | keep pre c' =>
     have hassign : s.assign c = s.finish pre (s.nested pre c') := by
-      rw [← assignBase_keep s c pre c' (by rw [hpo, hdc])]
-      simp only [State.assign, han, hpo, hdc]
+      rw [← assignBase_keep s c pre c' hdc]
+      simp only [State.assign, han, hdc]
     rw [hdc] at hdec
     rw [hassign] at hd ⊢
     obtain ⟨h1, h2⟩ := C06_finish_sound tr trp s pre (s.nested pre c') val _ hwf hdec.1
       (by rw [nested_eval tr trp s pre c' val hd0, hdec.2])
     exact ⟨h1, fun v h => h2 v h hd⟩
   | «alias» v =>
-    have : s.assign c = (s, .var v) := by simp only [State.assign, han, hpo, hdc, State.assignBase]
+    have : s.assign c = (s, .var v) := by simp only [State.assign, han, hdc, State.assignBase]
     rw [hdc] at hdec
     rw [this]
     exact ⟨fun k h => (by cases h), fun v' h => (by injection h with h; subst h; exact hdec)⟩
   | redirect c2 =>
-    cases c with
-    | abs a => exact C06_abs_assign tr trp s a val hwf hfix hf0 hf hd
-    | pow a p =>
-      have : prepro s.env (.pow a p) = preproPow s.env a p := rfl
-      rw [this] at hdc; simp only [preproPow] at hdc
-      split_ifs at hdc <;> first | cases hdc | (split at hdc <;> first | cases hdc | (split_ifs at hdc <;> cases hdc))
-    | clin k r ts => exact hcov.elim
-    | cquad k r ts qs => exact hcov.elim
-    | unp f a p => cases f <;> cases hdc
-    | _ => cases hdc
+    rw [hdc] at hdec
+    obtain ⟨heq, hb2⟩ := hdec
+    have hassign : s.assign c = (match (State.resultVar (s.assignBase c2)).2 with
+        | some v => ((State.resultVar (s.assignBase c2)).1, Res.var v)
+        | none => ((State.resultVar (s.assignBase c2)).1, Res.unsupported)) := by
+      simp only [State.assign, han, hdc]
+      rfl
+    rw [hassign] at hf hd ⊢
+    cases hrv : (State.resultVar (s.assignBase c2)).2 with
+    | none => simp only [hrv]; exact ⟨fun k h => (by cases h), fun v h => (by cases h)⟩
+    | some v' =>
+      simp only [hrv] at hf hd ⊢
+      refine ⟨fun k h => (by cases h), fun v h => ?_⟩
+      injection h with h; subst h
+      rw [← heq]
+      cases hd2 : preproO s.opts s.env c2 with
+      | keep pre2 c2' =>
+        rw [hd2] at hb2
+        rw [assignBase_keep s c2 pre2 c2' hd2] at hf hd hrv
+        exact redirect_outcome tr trp s pre2 (s.nested pre2 c2') val _ hwf hfix hb2.1
+          (by rw [nested_eval tr trp s pre2 c2' val hd0, hb2.2]) v' hf hd hrv
+      | «alias» v2 =>
+        rw [hd2] at hb2
+        have : s.assignBase c2 = (s, .var v2) := by simp only [State.assignBase, hd2]
+        rw [this] at hrv
+        simp only [State.resultVar] at hrv
+        injection hrv with hrv; subst hrv; exact hb2
+      | redirect c3 =>
+        have : s.assignBase c2 = (s, .unsupported) := by simp only [State.assignBase, hd2]
+        rw [this] at hrv; simp [State.resultVar] at hrv
+      | raise w =>
+        have : s.assignBase c2 = (s, .unsupported) := by simp only [State.assignBase, hd2]
+        rw [this] at hrv; simp [State.resultVar] at hrv
+      | unsupported =>
+        have : s.assignBase c2 = (s, .unsupported) := by simp only [State.assignBase, hd2]
+        rw [this] at hrv; simp [State.resultVar] at hrv
   | raise w =>
-    have : s.assign c = (s, .throw w) := by simp only [State.assign, han, hpo, hdc]
+    have : s.assign c = (s, .throw w) := by simp only [State.assign, han, hdc]
     rw [this]; exact ⟨fun k h => (by cases h), fun v h => (by cases h)⟩
   | unsupported =>
-    have : s.assign c = (s, .unsupported) := by simp only [State.assign, han, hpo, hdc]
+    have : s.assign c = (s, .unsupported) := by simp only [State.assign, han, hdc]
     rw [this]; exact ⟨fun k h => (by cases h), fun v h => (by cases h)⟩
+
+
+/-- **`sort_terms` (linear and quadratic) and negation preserve the value of a constraint body** — the normalisation steps of the
+conditional comparisons (`src/std_constr.cc` `LinTerms::sort_terms`, `QuadTerms::sort_terms`; `negate()`), for all term lists
+(duplicates, zero coefficients, unordered pairs) and all valuations. -/
+theorem C06_sort_terms_preserve (val : Val) (ts : LinT) (qs : QuadT) :
+    linVal val (sortLin ts) = linVal val ts ∧ quadVal val (sortQuad qs) = quadVal val qs ∧
+    linVal val (negLin ts) = - linVal val ts ∧ quadVal val (negQuad qs) = - quadVal val qs ∧
+    (∀ t ∈ sortLin ts, t.1 ≠ 0) :=
+  ⟨linVal_sortLin val ts, quadVal_sortQuad val qs, linVal_negLin val ts, quadVal_negQuad val qs, sortLin_nonzero ts⟩
+
+/-- **conditional comparisons** `body <cmp> rhs` with `<cmp>` ∈ {<, ≤, =, ≥, >}, linear or quadratic body, any option setting: whatever
+`PreprocessConstraint` decides — constant truth value for an empty body, `[0,1]` INTEGER with the normalised constraint (sorted/merged
+terms, sign flip of equalities, right-hand side rounded for integer bodies incl. strict comparisons, `coef·x == rhs` → `x == rhs/coef`),
+`FixEqualityResult`, reuse of a binary variable or its complement, redirection to the negated (normalised) comparison — the bounds
+contain the truth value and the constraint stored / converted instead has the same truth value at every feasible valuation. -/
+theorem C06_cond (o : Opts) (e : Env) (val : Val) (hf : Feasible e val) (htr : TrRange tr trp) (k : Int) (hk : KindOK k)
+    (rhs : Rat) (ts : LinT) (qs : QuadT) :
+    DecSound tr trp o e (preproO o e (.clin k rhs ts)) (.clin k rhs ts) val ∧
+    DecSound tr trp o e (preproO o e (.cquad k rhs ts qs)) (.cquad k rhs ts qs) val :=
+  ⟨decision_sound tr trp o e (.clin k rhs ts) val hk trivial htr hf,
+   decision_sound tr trp o e (.cquad k rhs ts qs) val hk trivial htr hf⟩
 
 /-- one operation as the harness / driver run it: `AssignResult2Args`, then a constant result is turned into a fixed variable -/
 def stepOp (s : State) (c : Con) : State := (State.resultVar (s.assign c)).1
@@ -1958,9 +2508,10 @@ theorem trRange_const_one : TrRange (fun _ _ => 1) (fun _ _ _ => 1) := by
     exact fresh_range_sound' _ _ _ (Or.inr (by simp [lbOK])) (Or.inr (by simp [ubOK]))
 
 /-- the history theorem applies to a non-trivial history: from x0 ∈ [7,9], x1 = −2 the operations `abs(x1)` (redirect to a constant →
-fixed variable), `2·x0 + x2` (new variable), `max(x0, x3)` and `exp(x4)`: all recorded bounds of the reachable state are sound -/
+fixed variable), `2·x0 + x2` (new variable), `max(x0, x3)`, `exp(x4)`, the strict comparison `−x0 > 17/2` (not normalised: redirected to
+`x0 < −17/2`) and the equality `2·x1 == 4`: all recorded bounds of the reachable state are sound -/
 example : BoundsSound (fun _ _ => 1) (fun _ _ _ => 1)
-    (runOps exAbsState [.abs 1, .lin 0 [(2, 0), (1, 2)], .max [0, 3], .un .exp 4]) := by
+    (runOps exAbsState [.abs 1, .lin 0 [(2, 0), (1, 2)], .max [0, 3], .un .exp 4, .clin 2 (17 / 2) [(-1, 0)], .clin 0 4 [(2, 1)]]) := by
   have hinit : BoundsSound (fun _ _ => 1) (fun _ _ _ => 1) exAbsState :=
     C06_initial_sound _ _ exAbsState (fun i => by
       by_cases h : i < 2
@@ -1969,6 +2520,7 @@ example : BoundsSound (fun _ _ => 1) (fun _ _ _ => 1)
       · exact getD_ge _ _ _ (by simp [exAbsState]; omega))
   have hwf : exAbsState.WF := by simp [State.WF, exAbsState]
   refine (C06_history_sound _ _ trRange_const_one _ exAbsState hwf hinit ?_).1
-  exact ⟨trivial, trivial, trivial, trivial, by simp [Covered], trivial, by simp [Covered], trivial, trivial⟩
+  exact ⟨trivial, trivial, trivial, trivial, by simp [Covered], trivial, by simp [Covered], trivial,
+    by simp [Covered, KindOK], trivial, by simp [Covered, KindOK], trivial, trivial⟩
 
 end MpVerif.C06
